@@ -152,6 +152,8 @@ pub enum Outcome {
 }
 
 pub struct RunResult {
+    /// every grant made, in order: (thread, what was granted)
+    pub grants: Vec<(usize, Want)>,
     pub outcome: Outcome,
     pub choices: Vec<usize>,
     pub status: Vec<Status>,
@@ -207,6 +209,7 @@ pub fn run(
     }
 
     let mut choices = Vec::new();
+    let mut all_grants: Vec<(usize, Want)> = Vec::new();
     let mut steps = 0usize;
     let mut last: Option<(usize, Want)> = None;
     let outcome;
@@ -282,6 +285,9 @@ pub fn run(
             Status::Waiting(w) => Some((t, *w)),
             _ => None,
         };
+        if let Some(g) = last {
+            all_grants.push(g);
+        }
         let mut g = STATE.lock().unwrap();
         let st = g.as_mut().unwrap();
         st.status[t] = Status::Running;
@@ -300,6 +306,7 @@ pub fn run(
     }
     CV.notify_all();
     RunResult {
+        grants: all_grants,
         outcome,
         choices,
         status: final_status,
